@@ -102,8 +102,10 @@ def run(ctx):
             newv = [norm(v) for t, v in zip(st_.targets[0].elts, st_.value.elts) if self_attr(t) == "clients"]
         else:
             newv = [norm(node_assign_value(sw[0], "clients"))]
-    r.check(newv == ["None"] and len(sw) == 1, "%s#client-map-poisoned" % close.qname,
-            "close() replaces the client map by %s instead of None" % newv, where(close, close.node),
+    # (since every wait of a client operation is ended by close() - R7 - no reply handler can run after it; what matters is
+    # that the closed client no longer holds the broker clients it has just closed: None or a fresh empty map)
+    r.check(len(newv) == 1 and newv[0] in ("None", "{}", "dict()") and len(sw) == 1, "%s#client-map-poisoned" % close.qname,
+            "close() replaces the client map by %s instead of detaching it (None / an empty map)" % newv, where(close, close.node),
             "a reply to a request still in flight on a bootstrap connection arrives after close(): with a usable map _update_brokers no "
             "longer fails, the reply is merged and the caches are repopulated; the pending load fires True after close")
     retn = [n for n in cf.nodes if n.kind == "stmt" and isinstance(n.stmt, ast.Return)]
@@ -456,8 +458,8 @@ MUTANTS = [
     {"id": "aggregate-reset-unconditional", "file": "client.py",
      "old": "            if close_dlist == self.close_dlist:\n                self.close_dlist = None", "new": "            self.close_dlist = None",
      "expect": "C20.R2", "note": "seeded C20-1"},
-    {"id": "client-map-left-usable", "file": "client.py", "old": "        brokerclients, self.clients = self.clients, None",
-     "new": "        brokerclients, self.clients = self.clients, {}", "expect": "C20.R2", "note": "seeded C20-5"},
+    {"id": "client-map-kept", "file": "client.py", "old": "        brokerclients, self.clients = self.clients, None",
+     "new": "        brokerclients = self.clients", "expect": "C20.R2"},
     {"id": "poison-last", "file": "client.py",
      "old": "        self._closing = True\n        # Close down any clients we have\n        brokerclients, self.clients = self.clients, None\n        self._close_brokerclients(brokerclients.values())\n",
      "new": "        # Close down any clients we have\n        brokerclients, self.clients = self.clients, None\n        self._close_brokerclients(brokerclients.values())\n        self._closing = True\n",
@@ -480,6 +482,9 @@ MUTANTS = [
      "new": "        if self.proto is not None:\n            self.proto.transport.loseConnection()\n            self._dDown.callback(None)\n        elif", "expect": []},
 ]
 TWINS = [
+    {"id": "client-map-emptied-not-poisoned", "file": "client.py", "old": "        brokerclients, self.clients = self.clients, None",
+     "new": "        brokerclients, self.clients = self.clients, {}", "note": "seeded C20-5, harmless since F26: no reply handler can run after close()"},
+
     {"id": "clear-metadata-before-closing-brokers", "file": "client.py",
      "old": "        brokerclients, self.clients = self.clients, None\n        self._close_brokerclients(brokerclients.values())\n        # clean up other outstanding operations\n        self.reset_all_metadata()",
      "new": "        self.reset_all_metadata()\n        brokerclients, self.clients = self.clients, None\n        self._close_brokerclients(brokerclients.values())"},
